@@ -26,6 +26,7 @@ MIN_EDIT = 4
 
 # rule instances decided by what the code computes, not by its shape ("PROP.RULE construct" is matched)
 FORM_INDEPENDENT = [
+    r"^C01\.R2 ",  # who may remove rows: call-graph rule, independent of how the caller is written
     r"^C04\.R1 ",  # payload / line width: constant propagation on probe lines
     r"^C04\.R6 .*:(terminator-width|record-name)$",  # constant propagation on probe header lines
     r"^C04\.R4 .*:counter-outside-flush$",  # path rule on the counter invariant
